@@ -64,7 +64,9 @@ def name_domain(tier):
                     out.append("a" * (L - c * w) + CH[w] * c)  # ASCII prefix + multibyte suffix, L bytes
                     if c < k and tier == "thorough":
                         out.append(CH[w] * c + "a" * (L - c * w))
-    out += [CH2ALT * 16, CH2ALT * 17, "caf" + CH2ALT, "a" + CH[2], CH[2] + "a", "ab", "a", CH[2], CH[4], " " * 2, "a\x00b", "x" * 33, "x" * 32]
+    out += ["cafe\u0301", "e\u0301" * 10, "e\u0301" * 11, "a" * 29 + "e\u0301", "a" * 30 + "e\u0301", "\ufb01x", "\u212bngstrom", "\ufb2a\u05dc\u05d5\u05dd",
+            "\u1e9b\u0323", "\u0041\u030a", "\uff21\uff22", "\u2460\u2461", "Boiler\u00a0room", "x\u200by",
+            CH2ALT * 16, CH2ALT * 17, "caf" + CH2ALT, "a" + CH[2], CH[2] + "a", "ab", "a", CH[2], CH[4], " " * 2, "a\x00b", "x" * 33, "x" * 32]
     seen, res = set(), []
     for n in out:
         if n not in seen:
